@@ -398,6 +398,38 @@ pub fn exec(ctx: &mut C07Ctx, verb: &str, m: &BTreeMap<String, String>) -> Strin
         }
         return a;
     }
+    if verb == "corrupt_entry" {
+        // `corrupt_entry c=<chunk> i=<entry> nchunks=<n> idx=<end|start>:<little|big> icrc=<0|1> delta=<k>`: in EVERY store of the
+        // case (the layouts may differ) the stored size of index entry i of the shard is changed by `delta` (the index checksum
+        // is recomputed); `ok` when the entry was live everywhere, else `skip` (nothing changed)
+        let c = pnl(&m["c"]);
+        let key = ctx.sync.array.chunk_key(&c);
+        let n: usize = m["nchunks"].parse().unwrap();
+        let i: usize = m["i"].parse().unwrap();
+        let parts: Vec<&str> = m["idx"].split(':').collect();
+        let icrc = m["icrc"] == "1";
+        let delta: i64 = m["delta"].parse().unwrap();
+        let isz = 16 * n + if icrc { 4 } else { 0 };
+        let mut stores: Vec<DynStore> = vec![ctx.sync.store.store.clone()];
+        for f in &ctx.fl { let d: DynStore = f.inner.clone(); stores.push(d); }
+        let mut news = vec![];
+        for st in &stores {
+            let v = match st.get(&key) { Ok(Some(b)) => b.to_vec(), _ => return "skip".into() };
+            if v.len() < isz { return "skip".into(); }
+            let base = if parts[0] == "end" { v.len() - isz } else { 0 };
+            let p = base + 16 * i + 8;
+            let b: [u8; 8] = v[p..p + 8].try_into().unwrap();
+            let size = if parts[1] == "big" { u64::from_be_bytes(b) } else { u64::from_le_bytes(b) };
+            if size == u64::MAX || (size as i64 + delta) < 0 { return "skip".into(); }
+            let ns = (size as i64 + delta) as u64;
+            let mut w = v.clone();
+            w[p..p + 8].copy_from_slice(&if parts[1] == "big" { ns.to_be_bytes() } else { ns.to_le_bytes() });
+            if icrc { let crc = crate::c15::crc32c_bitwise(&w[base..base + 16 * n]); w[base + 16 * n..base + 16 * n + 4].copy_from_slice(&crc.to_le_bytes()); }
+            news.push(w);
+        }
+        for (st, w) in stores.iter().zip(news) { let _ = st.set(&key, w.into()); }
+        return "ok".into();
+    }
     let s = exec_sync(ctx, verb, m);
     // every flavour executes the operation (their stores stay in step); the first disagreement is reported
     let mut bad: Option<String> = None;
@@ -655,6 +687,37 @@ pub fn generate(tier: &str, seed: u64) -> Vec<String> {
                 out.push(format!("c07 {}", gen_read_op(&mut rp, &cfg)));
             }
             gen_full_reads(&mut rp, &cfg, &mut out, "c07");
+        }
+    }
+    // (own stream) a shard whose index was altered behind the API: an entry with a wrong size that still lies inside the value
+    // (fixed-size inner chain). Whatever the answer of a read is, it must be the same through both forms.
+    {
+        let mut rc = Rng::new(seed ^ 0xC07_E7);
+        let dts = dtypes();
+        for _ in 0..(if thorough { 120 } else { 16 }) {
+            let dt = dts.iter().filter(|d| d.es.is_some() && d.name != "bool").nth(rc.below(8) as usize).unwrap().clone();
+            let es = dt.es.unwrap();
+            let (loc, big, icrc) = (if rc.chance(1, 2) { "end" } else { "start" }, rc.chance(1, 2), rc.chance(1, 2));
+            let inner = vec![rc.range(1, 2), rc.range(2, 3)];
+            let chunk = vec![inner[0] * 2, inner[1] * 2];
+            let bytes = if es == 1 { "{\"name\":\"bytes\"}".to_string() } else { "{\"name\":\"bytes\",\"configuration\":{\"endian\":\"little\"}}".to_string() };
+            let idx = format!("[{{\"name\":\"bytes\",\"configuration\":{{\"endian\":\"{}\"}}}}{}]", if big { "big" } else { "little" }, if icrc { ",{\"name\":\"crc32c\"}" } else { "" });
+            let json = format!("[{{\"name\":\"sharding_indexed\",\"configuration\":{{\"chunk_shape\":[{},{}],\"codecs\":[{}],\"index_codecs\":{},\"index_location\":\"{}\"}}}}]", inner[0], inner[1], bytes, idx, loc);
+            let cfg = Cfg { dtype: dt.clone(), fill: dt.fills[0].clone(), shape: chunk.clone(), grid: vec![(true, vec![chunk[0]]), (true, vec![chunk[1]])], regular_impl: true,
+                keys: ("default".into(), "/".into()), codecs_json: json, chain_desc: format!("shard[{}x{};{};bytes]", inner[0], inner[1], loc), sharded: true, path: "/ce".into(), eff_inner: Some(inner.clone()) };
+            out.push(cfg.cfg_line("c07", "memory", false, false, &format!(" lat={}", rc.below(100000))));
+            let total: u64 = chunk.iter().product();
+            let xs: Vec<Vec<u8>> = (0..total).map(|q| { let mut e = vec![0u8; es]; e[0] = (q % 250) as u8 + 1; e }).collect();
+            out.push(format!("c07 op store_array_subset r=0,0+{} data={}", nl(&chunk), show_elems(&xs)));
+            out.push(format!("c07 op corrupt_entry c=0,0 i={} nchunks=4 idx={}:{} icrc={} delta={}", rc.below(4), loc, if big { "big" } else { "little" }, icrc as u8, *rc.pick(&[-1i64, -1, 1, -(es as i64)])));
+            for _ in 0..5 {
+                let mut st = vec![]; let mut n = vec![];
+                for &e in &chunk { let a = rc.below(e); st.push(a); n.push(rc.range(1, e - a)); }
+                out.push(format!("c07 op retrieve_chunk_subset c=0,0 r={}+{}", nl(&st), nl(&n)));
+                out.push(format!("c07 op pdx c=0,0 rs={}+{}", nl(&st), nl(&n)));
+                out.push(format!("c07 op retrieve_array_subset r={}+{}", nl(&st), nl(&n)));
+            }
+            out.push("c07 op retrieve_chunk c=0,0".into());
         }
     }
     // hierarchies
